@@ -107,6 +107,34 @@ _DECODE_WARN = (">= comb(", "_index_to_edge_prod was given index")
 
 LAST = {"desc": None}
 
+# arguments a generator documents as modified in place: (function, position) -> where it says so
+DOCUMENTED_IN_PLACE = {("uniform_hypergraph_configuration_model", 0): "Warns: increases the degree of random nodes when the sum is not divisible by m"}
+
+
+def fingerprint(x):
+    """Comparable digest of a mutable argument (None for immutable scalars), to see whether a call changed it."""
+    if isinstance(x, np.ndarray):
+        return ("ndarray", x.dtype.str, x.shape, x.tobytes())
+    if isinstance(x, dict):
+        return ("dict", [(repr(k), fingerprint(v) or repr(v)) for k, v in x.items()])
+    if isinstance(x, (list, set)):
+        return (type(x).__name__, [fingerprint(v) or repr(v) for v in x])
+    if isinstance(x, nx.Graph):
+        return ("graph", repr(list(x.nodes(data=True))), repr(list(x.edges(data=True))))
+    if isinstance(x, (xgi.Hypergraph, xgi.DiHypergraph)):
+        from .. import snap
+        return ("network", repr(snap.snap(x, uid=True)))
+    return None
+
+
+def note_modified(mon, fname, before, args, kwargs):
+    """Counter only (not a verdict of C16/C17): the call changed one of its arguments and the docstring does not say so."""
+    items = list(enumerate(args)) + list(kwargs.items())
+    for (key, x), fp in zip(items, before):
+        if fp is not None and (fname, key) not in DOCUMENTED_IN_PLACE and fingerprint(x) != fp:
+            mon.note(f"argument-modified:{fname}:{key}")
+            mon.sample(f"argument-modified: {fname} changed its argument {key!r} in place")
+
 
 def call(mon, fname, trig, args, kwargs, rejects=(), reject_ok=True, keyfn=None):
     """Call the generator at the client boundary.  Returns (network, call string).
@@ -119,6 +147,7 @@ def call(mon, fname, trig, args, kwargs, rejects=(), reject_ok=True, keyfn=None)
     LAST["desc"] = desc
     keyfn = keyfn or fname
     mon.note(f"fn:{fname}")
+    before = [fingerprint(x) for x in args] + [fingerprint(x) for x in kwargs.values()]
     with warnings.catch_warnings(record=True) as w:
         warnings.simplefilter("always")
         try:
@@ -136,6 +165,9 @@ def call(mon, fname, trig, args, kwargs, rejects=(), reject_ok=True, keyfn=None)
             mon.ev()
             mon.fail(f"{keyfn}|{trig}|raises-{type(exc).__name__}", f"{desc} raised {type(exc).__name__}: {exc}", desc)
             raise Fired()
+    if any(fp is not None for fp in before):
+        mon.note("argument-mutation-probes")
+        note_modified(mon, fname, before, args, kwargs)
     for x in w:
         msg = str(x.message)
         if any(t in msg for t in _DECODE_WARN):
@@ -364,7 +396,7 @@ def large_bipartite(rng, groups=False, sizes=(300, 1000, 3000, 6000)):
     g1 = {i: rng.randrange(2) for i in k1}
     g2 = {j: rng.randrange(2) for j in k2}
     S = sum(k1.values())
-    omega = np.array([[S // 3, S // 6], [S // 6 if rng.random() < 0.7 else 0, S // 3]])
+    omega = np.array([[S // 3, S // 6], [S // 6 if rng.random() < 0.7 else 0, S // 3]]).astype(rng.choice([int, float, float, np.float32]))
     return k1, k2, g1, g2, omega
 
 
@@ -717,7 +749,7 @@ def dcsbm_params(rng):
     ng1, ng2 = rng.randint(1, 2), rng.randint(1, 2)
     g1 = {v: rng.randrange(ng1) for v in k1}
     g2 = {e: rng.randrange(ng2) for e in k2}
-    omega = np.array([[rng.randint(0, 6) for _ in range(ng2)] for _ in range(ng1)])
+    omega = np.array([[rng.randint(0, 6) for _ in range(ng2)] for _ in range(ng1)]).astype(rng.choice([int, float, float, np.float32]))
     return k1, k2, g1, g2, omega
 
 
